@@ -315,16 +315,16 @@ fn print_path(seed: u64, rounds: usize) {
     let mut results: Vec<Value> = vec![];
     // stdout: the writer directly, print!, println!, println!(); stderr: the writer, eprint!,
     // eprintln!, eprintln!(), dbg!(value)
-    let kinds = ["direct", "print", "println", "println0", "edirect", "eprint", "eprintln", "eprintln0", "dbg"];
+    let kinds = ["direct", "print", "println", "println0", "edirect", "eprint", "eprintln", "eprintln0", "dbg", "dbg0", "dbg2"];
     let lens = [0usize, 1, 5, 4095, 4096, 4097, 9000, 20000, 70000];
     let mut idx = 0usize;
     for round in 0..rounds {
         for &len in &lens {
             for kind in kinds {
-                if (kind.ends_with("ln0") && len != 0) || (kind == "dbg" && len > 9000) {
+                if ((kind.ends_with("ln0") || kind == "dbg0" || kind == "dbg2") && len != 0) || (kind == "dbg" && len > 9000) {
                     continue;
                 }
-                let fd = if kind.starts_with('e') || kind == "dbg" { 2 } else { 1 };
+                let fd = if kind.starts_with('e') || kind.starts_with("dbg") { 2 } else { 1 };
                 idx += 1;
                 let msg = pattern(len, idx);
                 // signals: none / one after a random delay / a burst
@@ -437,12 +437,25 @@ fn print_path(seed: u64, rounds: usize) {
                         tiny_std::eprintln!();
                         ("\n".to_string(), None)
                     }
+                    "dbg0" => {
+                        // dbg!() prints "[file:line]\n"
+                        #[rustfmt::skip]
+                        let l = { tiny_std::dbg!(); line!() };
+                        (format!("[{}:{}]\n", file!(), l), None)
+                    }
+                    "dbg2" => {
+                        // dbg!(a, b) prints one line per value and returns the tuple
+                        #[rustfmt::skip]
+                        let (l, back) = (line!(), tiny_std::dbg!(len, idx));
+                        let good = back == (len, idx);
+                        (format!("[{f}:{l}] len = {len:#?}\n[{f}:{l}] idx = {idx:#?}\n{}", if good { "" } else { "\u{0}WRONG-RETURN" }, f = file!()), None)
+                    }
                     _ => {
                         // dbg!(expr) prints "[file:line] expr = {:#?}\n" to stderr and returns the value
                         #[rustfmt::skip]
                         let (l, back) = (line!(), tiny_std::dbg!(msg.as_str()));
-                        assert!(back == msg.as_str(), "harness: dbg! must return its argument");
-                        (format!("[{}:{}] {} = {:#?}\n", file!(), l, "msg.as_str()", msg.as_str()), None)
+                        let good = back == msg.as_str();
+                        (format!("[{}:{}] {} = {:#?}\n{}", file!(), l, "msg.as_str()", msg.as_str(), if good { "" } else { "\u{0}WRONG-RETURN" }), None)
                     }
                 };
                 done.store(true, Ordering::SeqCst);
@@ -456,7 +469,7 @@ fn print_path(seed: u64, rounds: usize) {
                 let got = reader.join().unwrap();
                 // println!: the text and the newline are two writes; if the first is cut short by
                 // an error (discarded by the macro) the newline may still follow the prefix
-                let is_ln = kind.contains("println") || kind == "dbg";
+                let is_ln = kind.contains("println") || kind.starts_with("dbg");
                 let mut body: &[u8] = &got;
                 let mut nl = false;
                 if is_ln && body.last() == Some(&b'\n') {
